@@ -192,7 +192,7 @@ def body_matches(bodies, line, w, pad, guides, word_wrap, no_crop):
             return "a line that fits is shown on %d rows" % len(bodies)
         if bodies[0] == want:
             return None
-        if len(line) > w and bodies[0].rstrip(" ") == line.rstrip(" "):
+        if len(line) > w and bodies[0].rstrip() == line.rstrip():
             return None  # Text.rstrip_end compares characters with cells: only trailing blanks can go
         return "a line that fits is not shown exactly (followed by padding only)"
     if word_wrap == "either":  # word_wrap=True under options.no_wrap=True: rich crops or folds depending on how the line Text was made
@@ -372,10 +372,28 @@ def all_strings(alpha, maxlen):
             yield "".join(t)
 
 
+# Python's str.isspace() beyond the ASCII blank/tab/newline family: none of these is indentation for rich
+# (`with_indent_guides` matches `^( *)`), so none may ever be overdrawn by a guide or turned into an ASCII space
+EXOTIC_WS = ["\u00a0", "\u1680", "\u2000", "\u2001", "\u2002", "\u2003", "\u2004", "\u2005", "\u2006", "\u2007", "\u2008", "\u2009",
+             "\u200a", "\u2028", "\u2029", "\u202f", "\u205f", "\u3000", "\x1c", "\x1d", "\x1e", "\x1f", "\x85"]
+
+
+def ws_line(rng):
+    """A line that STARTS with whitespace other than ASCII blanks (mixed with blanks and tabs); sometimes nothing else follows."""
+    n = rng.choice([1, 1, 2, 3, 4, 6, 8])
+    prefix = "".join(rng.choice(EXOTIC_WS + EXOTIC_WS + [" ", " ", "\t"]) for _ in range(n))
+    if not any(ch in EXOTIC_WS for ch in prefix):
+        prefix = rng.choice(["", " ", "  ", "    "]) + rng.choice(EXOTIC_WS) + prefix
+    return prefix + rng.choice(["", "", "x = 1", "text", "# c", "あ", "<p>", '"k": 1'])
+
+
 def rand_source(rng, lexer):
     pool = POOLS[lexer]
     n = rng.choice([0, 1, 1, 2, 3, 4, 5, 7, 9, 10, 11, 12, 20])
     lines = [rng.choice(pool) for _ in range(n)]
+    if lines and rng.random() < 0.3:
+        for _ in range(rng.choice([1, 1, 2, 4])):
+            lines[rng.randrange(len(lines))] = ws_line(rng)
     lead = rng.choice([0, 0, 0, 1, 1, 2, 3, 5])
     trail = rng.choice([0, 1, 1, 1, 2, 3])
     nl = "\r\n" if rng.random() < 0.04 else "\n"
@@ -488,7 +506,8 @@ def helper_correspondence(ctx, rng):
         t.remove_suffix("\n")
         ctx.case("syn_remove_suffix", [enc_str(s)], enc_str(t.plain))
     # with_indent_guides on line lists
-    lines_alpha = ["", " ", "  ", "a", " a", "  a", "   a", "    a", "     a b", "  │"]
+    lines_alpha = ["", " ", "  ", "a", " a", "  a", "   a", "    a", "     a b", "  │",
+                   "\u00a0a", "  \u3000a", "\u2003", " \u2003 ", "\u00a0\u00a0\u00a0\u00a0a", "\x1f a", "\u2028", "  \u205f  a"]
     combos = list(itertools.product(lines_alpha, repeat=2)) + [tuple(rng.choice(lines_alpha) for _ in range(rng.randint(1, 6))) for _ in range(400 if ctx.quick else 4000)]
     for ls in [()] + combos:
         for ts in (0, 1, 2, 4):
@@ -552,6 +571,19 @@ def syntax_cases(ctx, rng):
         run_case(ctx, c, "exhaustive-plain")
         c = Case(code=s, lexer="python", indent_guides=True, tab_size=rng.choice([1, 2, 4]), line_range=rng.choice([None, (1, n), (1, max(n - 1, 1))]), width=30)
         run_case(ctx, c, "exhaustive-guides")
+    ctx.flush()
+    # (1b) every non-ASCII / control member of str.isspace() at the start of a line, alone and mixed with blanks and tabs,
+    #      followed by text or by nothing, between ordinarily indented lines — with indent guides on and off
+    for wsc in EXOTIC_WS:
+        for prefix in (wsc, " " + wsc, wsc + " ", "  " + wsc + "  ", wsc * 4, "\t" + wsc, "    " + wsc, wsc + "    "):
+            for body in ("x", ""):
+                code = "def f():\n" + prefix + body + "\n    y = 1\n" + wsc * 2 + "\n  z\n" + prefix + body
+                for lexer in ("python", "no-such-lexer", "text"):
+                    for guides in (True, False):
+                        c = Case(code=code, lexer=lexer, indent_guides=guides, tab_size=rng.choice([4, 4, 2, 1]), theme=rng.choice(["ansi_dark", "monokai"]),
+                                 line_numbers=True, line_range=rng.choice([None, None, (2, 5), (1, 6)]), highlight=(2,), width=rng.choice([40, 60]),
+                                 word_wrap=rng.random() < 0.15)
+                        run_case(ctx, c, "exotic-leading-whitespace")
     ctx.flush()
     # (2) structured random
     n_rand = 2500 if ctx.quick else 60000
@@ -679,10 +711,14 @@ def gen_module(rng):
     ind = rng.choice(["    ", "\t", "  "])
     filler = ["a = 1", "b = 'あいう'  # wide", "", "c = [1, 2,\t3]", "# comment", "d = " + " + ".join(["1"] * 50), "  ".rstrip(), "e = {'k': 'v'}"]
     pre = [rng.choice(filler) for _ in range(rng.choice([0, 0, 1, 2, 5, 9, 15]))]
+    if rng.random() < 0.4:  # context lines starting with non-ASCII whitespace: legal inside a string literal
+        k = rng.randrange(len(pre) + 1)
+        ws = [w for w in EXOTIC_WS if w not in ("\x1c", "\x1d", "\x1e", "\x1f", "\x85", "\u2028", "\u2029")]
+        pre[k:k] = ['t = """', rng.choice(ws) + rng.choice(ws) + " indented", rng.choice(ws) * 3, "  " + rng.choice(ws) + "x", '"""']
     shape = rng.choice(["flat", "func", "nested", "method", "short"])
     if shape == "short":
         body = ["raise ValueError('short')"]
-        pre = []
+        pre = [] if rng.random() < 0.6 else pre
     elif shape == "flat":
         body = ["raise ValueError('flat %d' % a)" if pre and pre[0].startswith("a") else "raise ValueError('flat')"]
     elif shape == "func":
